@@ -440,19 +440,33 @@ def _memo(ctx, nz):
     tracker = ctx.index.get_class(K.SCHED, 'PlacementFeasibilityTracker')
     count = 0
 
+    demands = set(['demand'])
+
+    def is_demand(text):
+        return text in demands or text.endswith('.demand')
+
     def dominated(atom):
         return atom.kind == 'vec' and atom.key[1] == 'ALL' and \
             atom.key[2] == '<=' and 'recorder' in atom.key[3] and \
-            atom.key[4].endswith('demand')
+            is_demand(atom.key[4])
 
     def smaller_or_new(atom):
         if atom.kind == 'vec' and atom.key[1] == 'ALL' and \
-                atom.key[2] == '<=' and atom.key[3].endswith('demand') and \
+                atom.key[2] == '<=' and is_demand(atom.key[3]) and \
                 'recorder' in atom.key[4]:
             return True
         return atom.key[0] == 'in' and not atom.key[3] and \
             'recorder' in atom.key[2]
     for func in tracker.live_methods():
+        # the demand, whatever the local is called: second component of
+        # the instance's shape
+        for sub in K.walk_no_nested(func.node):
+            if isinstance(sub, ast.Assign) and len(sub.targets) == 1 and \
+                    isinstance(sub.targets[0], ast.Tuple) and \
+                    len(sub.targets[0].elts) == 2 and \
+                    isinstance(sub.value, ast.Call) and \
+                    K.is_meth(sub.value, '_shape', 'shape'):
+                demands.add(N.txt(sub.targets[0].elts[1]))
         graph = ctx.cfg(func)
         env = K.func_env(func)
         nzf = N.Normaliser(nz.helpers, env=env)
@@ -462,7 +476,7 @@ def _memo(ctx, nz):
                 if isinstance(val, ast.Constant) and val.value is False:
                     count += 1
                     ctx.ob('C02.3', func, node, K.guarded_by_atoms(
-                        ctx, func, graph, node, dominated, nz),
+                        ctx, func, graph, node, dominated, nzf),
                            "'not feasible' only under ALL(demand >= "
                            'recorded)')
                 elif val is not None and not isinstance(val, ast.Constant):
@@ -474,7 +488,7 @@ def _memo(ctx, nz):
                     count += 1
                     ok = any(dominated(a) for a in atoms) or \
                         K.guarded_by_atoms(ctx, func, graph, node,
-                                           dominated, nz)
+                                           dominated, nzf)
                     ctx.ob('C02.3', func, node, ok,
                            "a falsy answer ('not feasible') implies "
                            'ALL(demand >= recorded): %s' % [
@@ -483,9 +497,9 @@ def _memo(ctx, nz):
                     and isinstance(node.ast.targets[0], ast.Subscript) and \
                     'recorder' in N.txt(node.ast.targets[0].value):
                 count += 1
-                plain = isinstance(K.rexpr(func, node.ast.value), ast.Name)
+                plain = is_demand(K.rtxt(func, node.ast.value))
                 ok = K.guarded_by_atoms(ctx, func, graph, node,
-                                        smaller_or_new, nz)
+                                        smaller_or_new, nzf)
                 ctx.ob('C02.3', func, node, plain and ok,
                        'record written for a new key, or replaced only '
                        'under ALL(demand <= recorded), by the demand '
